@@ -4,7 +4,7 @@ import numpy as np
 from common import *
 
 ID = "C10"
-THEOREM_FILES = ["Summer.Props.C10", "Summer.Props.C10Solvers", "Summer.Props.C07Source", "Summer.Props.C01Rates", "Summer.Props.C01Source", "Summer.Props.C07Pipeline"]
+THEOREM_FILES = ["Summer.Props.C10", "Summer.Props.C10Solvers", "Summer.Props.C07Source", "Summer.Props.C01Rates", "Summer.Props.C01Source", "Summer.Props.C07Pipeline", "Summer.Props.C08EndToEnd"]
 TASK = "task"
 RULE = ("programs mixing constant, parameter-only, time- and state-dependent rates, adjustments, mixing matrices and computed values (with "
         "deliberately equal expressions on several flows); one_step at grid and off-grid times and arbitrary states vs the model; along "
